@@ -1002,6 +1002,19 @@ func harnessC18world() {
 				vCover("two-plugin-servers")
 			}
 		}
+		if vChoice(2) == 1 {
+			// a brokered server still being STARTED on the plugin when the shutdown arrives: its listener is open and
+			// advertised, the caller's server factory has not returned yet
+			vCover("plugin-server-factory-in-progress")
+			go func() {
+				vSetProc(p.id)
+				pbk.AcceptAndServe(18, func(opts []grpc.ServerOption) *grpc.Server {
+					vSleepUntil(vNow() + 2*sec) // a factory that takes its time (registers many services, loads state)
+					return grpc.NewServer(opts...)
+				})
+			}()
+			vSleepUntil(vNow() + sec)
+		}
 		if !o.mux && !o.cmd && vChoice(2) == 1 { // a host-side brokered listener (in the runner's socket directory) still open when the client is killed
 			vCover("host-listener-left-open")
 			_, err := hb.Accept(13)
